@@ -51,6 +51,8 @@ def snap(msg):
 
 
 def _same(a, b):
+    if isinstance(a, int) and isinstance(b, int) and not isinstance(a, bool) and not isinstance(b, bool):
+        return a == b           # an int subclass may be stored as it is or as a plain int
     return a == b and type(a) is type(b) or (isinstance(a, tuple) and isinstance(b, tuple) and tuple(a) == tuple(b))
 
 
@@ -266,7 +268,9 @@ def pool_for(name):
     lo, hi = R.RANGES[name]
     mid = (lo + hi) // 2
     good = sorted({lo, lo + 1, mid, hi - 1, hi, min(hi, 64), max(lo, 0)})
-    bad = [lo - 1, hi + 1] + HUGE + [T('float', float(g)) for g in good] + ILLTYPED
+    bad = [lo - 1, hi + 1] + HUGE + [T('float', float(g)) for g in good] + ILLTYPED + [T('fraction', [hi, 1]),
+                                                                                      T('intsub', hi + 1)]
+    good = good + [T('intsub', mid), T('intsub', hi)]
     return good, bad
 
 
